@@ -19,6 +19,7 @@ AllowedC13(e) ==
   CASE e.op = "c2u"    -> e.pop = WordOf(e.id).pop /\ e.tz = WordOf(e.id).tz
     [] e.op = "u2c"    -> e.out = CardOfBit(e.bit)
     [] e.op = "ctext"  -> e.s = CardText(e.id)
+    [] e.op = "convsum" -> e.conversions > 0      \* summary of the concurrent conversions; each deviating one is a u2c / c2u event
     [] e.op = "cpad"   -> Trim(e.s) = CardText(e.id)      \* formatted with a width / alignment: the card's text, padding aside
     [] e.op = "cparts" -> e.rank = RankOf(e.id) /\ e.suit = SuitOf(e.id)
     [] e.op = "cparse" -> e.out = CardFromText(e.s)
